@@ -3,7 +3,7 @@ HpcSubmitter._create_run_script, AsyncHpcSubmitter.is_complete, run_command)."""
 import os
 
 from jsym import is_sym
-from .common import bootstrap, scratch_root, set_raw, slurm_group
+from .common import ProcProtocol, bootstrap, scratch_root, set_raw, slurm_group
 
 # SLURM job state vocabulary (squeue long names / short codes)
 TERMINAL = {"COMPLETED": "CD", "COMPLETING": "CG", "FAILED": "F", "CANCELLED": "CA", "TIMEOUT": "TO", "NODE_FAIL": "NF",
@@ -15,13 +15,13 @@ NON_TERMINAL = {"PENDING": "PD", "CONFIGURING": "CF", "RUNNING": "R", "SUSPENDED
 OOV = ["completed", "COMPLETE", "COMPLETED+", "CANCELLED+", "DONE", "X", "(null)", "N/A"]
 
 
-class _Pipe:
+class _Pipe(ProcProtocol):
     def __init__(self, rc, out="", err=""):
         self.returncode = rc
         self._o, self._e = out, err
         self.pid = 4242
 
-    def communicate(self, *a, **k):
+    def communicate(self, input=None, timeout=None):
         return self._o.encode(), self._e.encode()
 
     def poll(self):
